@@ -60,6 +60,8 @@ for k in ks:
     res.append(r)
 subprocess.run(["git", "-C", wt, "checkout", "-q", "--", "."])
 subprocess.run(["git", "-C", wt, "clean", "-fdq"])
+import hashlib, shutil
+shutil.rmtree("/verif/build/alt-" + hashlib.sha256(os.path.realpath(wt).encode()).hexdigest()[:10], ignore_errors=True)
 subprocess.run(["git", "-C", "/repo", "worktree", "remove", "--force", wt], capture_output=True)
 outf = OUT + "/%s/tryseed-%s.json" % (pid, tier)
 old = []
